@@ -100,6 +100,7 @@ def run(tier):
     srcs["recon-b"] = c03worker.recon("zonedb")
     p25, _ = c03worker.tz2025b(True)
     srcs["tz2025b"] = p25
+    srcs["features"] = c03worker.features()
     if not q:
         for i in range(6):
             mq, desc, base, sy, uy = c03worker.mutant(seed + 77, i)
@@ -109,7 +110,8 @@ def run(tier):
     jobs = []
     combos = [("recon-x", "extended", "arduino", "zonedb"), ("recon-x", "extended", "python", "zonedb"),
               ("recon-b", "basic", "arduino", "zonedb"), ("tz2025b", "extended", "python", "zonedb"),
-              ("tz2025b", "basic", "arduino", "zonedb"), ("tz2025b", "extended", None, "zonelist"), ("tz2025b", "basic", None, "tzdb")]
+              ("tz2025b", "basic", "arduino", "zonedb"), ("tz2025b", "extended", None, "zonelist"), ("tz2025b", "basic", None, "tzdb"),
+              ("features", "extended", "python", "zonedb"), ("features", "basic", "python", "zonedb"), ("features", "extended", "arduino", "zonedb")]
     if not q:
         combos += [("tz2025b", "extended", "arduino", "zonedb"), ("tz2025b", "basic", "python", "zonedb"), ("recon-b", "basic", "python", "zonedb"),
                    ("recon-x", "basic", "arduino", "zonedb"), ("recon-x", "extended", None, "tzdb")]
@@ -143,7 +145,7 @@ def run(tier):
                     v.violation("c20:nondeterministic-output:%s" % f, "the same source compiled twice gives different files",
                                 {"job": tag, "file": f, "first_diffs": diff})
     # ------------------------------------------------------------------ B/C/D: python tables, zone list, counters
-    for name, scope in (("recon-x", "extended"), ("tz2025b", "extended")) + ((("recon-b", "basic"),) if not q else ()):
+    for name, scope in (("recon-x", "extended"), ("tz2025b", "extended"), ("features", "extended"), ("features", "basic")) + ((("recon-b", "basic"),) if not q else ()):
         tag = "%s-%s-python-zonedb" % (name, scope)
         out = outputs.get(tag)
         if out is None:
